@@ -79,6 +79,7 @@ class FaultState:
         self.n = 0
         self.sites = []          # site of every invocation, in order
         self.fired = []          # (n, kind, site, exception object)
+        self.trial_calls = set() # invocation numbers raised inside pandas' trial call on an empty frame (pandas discards those)
         self.record_sites = record_sites
 
 
@@ -114,4 +115,20 @@ def fault_point(site):
     if kind is not None:
         exc = make_exception(kind)
         st.fired.append((st.n, kind, site, exc))
+        if _inside_pandas_trial_call():
+            st.trial_calls.add(st.n)
         raise exc
+
+
+def _inside_pandas_trial_call():
+    """DataFrame.apply / Series.apply on an empty object calls the function once 'to see what it returns' and discards any
+    exception it raises (pandas.core.apply.FrameApply.apply_empty_result): such an exception never reaches pandera."""
+    import sys
+    f = sys._getframe(2)
+    depth = 0
+    while f is not None and depth < 40:
+        if f.f_code.co_name == "apply_empty_result":
+            return True
+        f = f.f_back
+        depth += 1
+    return False
